@@ -507,6 +507,19 @@ func main() {
 							n++
 						}
 					}
+				case "demorgan":
+					// the condition of an if statement: a && b -> !(!a || !b), a || b -> !(!a && !b)
+					if is, ok := node.(*ast.IfStmt); ok {
+						if be, ok := is.Cond.(*ast.BinaryExpr); ok && (be.Op == token.LAND || be.Op == token.LOR) {
+							op := token.LOR
+							if be.Op == token.LOR {
+								op = token.LAND
+							}
+							not := func(e ast.Expr) ast.Expr { return &ast.UnaryExpr{Op: token.NOT, X: &ast.ParenExpr{X: e}} }
+							is.Cond = not(&ast.BinaryExpr{X: not(be.X), Op: op, Y: not(be.Y)})
+							n++
+						}
+					}
 				case "neg-if":
 					if is, ok := node.(*ast.IfStmt); ok && is.Else != nil && is.Init == nil {
 						if eb, ok := is.Else.(*ast.BlockStmt); ok {
